@@ -2,7 +2,7 @@
 from pyvc.api import (Const, Enum, Int, Items, ListOf, Loop, Named, Obj, Opt, Real, Ref, Str,
                       TupleOf, contract, harness, implies, forall)
 
-BIND = {"Psize": "pdb2pqr.psize:Psize"}
+BIND = {"Psize": "pdb2pqr.psize:Psize", "Atom": "pdb2pqr.structures:Atom", "Input": "pdb2pqr.inputgen:Input"}
 
 
 def V3():
@@ -149,7 +149,6 @@ contract(
 # ---------------------------------------------------------------- parse_lines over real PQR lines (layout logic)
 from pyvc.api import Bool, NameTok  # noqa: E402
 
-BIND["Atom"] = "pdb2pqr.structures:Atom"
 
 
 def PATOM(tag, **over):
@@ -201,3 +200,35 @@ def parse_two(a, b, chainflag):
              "REMARK   5\n", b.get_pqr_string(chainflag=chainflag) + "\n", "TER\n", "END"]
     size.parse_lines(lines)
     return size
+
+
+# ---------------------------------------------------------------- the APBS input file is rendered from the Psize values
+
+
+def after(words, key, k):
+    """the k words following the first occurrence of key"""
+    found = -1
+    i = 0
+    for w in words:
+        if found < 0 and w == key:
+            found = i
+        i = i + 1
+    return words[found + 1:found + 1 + k]
+
+
+@harness("C17",
+         params={"size": Obj("pdb2pqr.psize:Psize", ngrid=ListOf(Int, 3), coarse_length=ListOf(Real, 3),
+                             fine_length=ListOf(Real, 3), proc_grid=ListOf(Real, 3), gmemceil=Real)},
+         requires=["forall(range(3), lambda i: size.ngrid[i] >= 33 and size.ngrid[i] < 100000)",
+                   "forall(range(3), lambda i: size.coarse_length[i] > 0 and size.fine_length[i] > 0)"],
+         ensures=[
+             # the file names the PQR just written (base name) and carries the suggested grid
+             "after(result.split(), 'mol', 2)[0] == 'pqr' and after(result.split(), 'mol', 2)[1] == 'out.pqr'",
+             "forall(range(3), lambda i: after(result.split(), 'dime', 3)[i] == fmt(size.ngrid[i], 'd'))",
+             "forall(range(3), lambda i: after(result.split(), 'cglen', 3)[i] == fmt(size.coarse_length[i], '.4f'))",
+             "forall(range(3), lambda i: after(result.split(), 'fglen', 3)[i] == fmt(size.fine_length[i], '.4f'))",
+         ],
+         name="Input.render")
+def render_input(size):
+    inp = Input("some/dir/out.pqr", size, "mg-auto", 0, potdx=True)
+    return str(inp)
